@@ -314,13 +314,29 @@ def replay_c19(state):
         try:
             from statham.schema.elements import AllOf
             for sub in drive.walk_elements(prop.element):
-                if isinstance(sub, AllOf) and sub.annotation != sub.elements[0].annotation:
-                    cause = "allof-annotation-is-not-its-first-member's"
+                cause = _allof_cause(sub, cause)
         except Exception:  # noqa
             pass
         obs["wrappers"].append(dict(how=how, annot=text_annot, ty=ty, reqd=reqd, outs=outs, skipped=skipped,
                                     cause=cause))
     return obs
+
+
+def _allof_cause(sub, cause):
+    """Root cause of an unsound AllOf annotation.  The value of an AllOf is built by its FIRST
+    member.  Known finding: the first member is untyped (Any) or a Union and the annotation
+    names a later member's type.  Anything else (e.g. the annotation overriding an explicitly
+    typed first member) is a different cause and is reported."""
+    from statham.schema.elements import AllOf
+    if not isinstance(sub, AllOf):
+        return cause
+    first = sub.elements[0].annotation
+    if sub.annotation == first:
+        return cause
+    if first == "Any" or first.startswith("Union"):
+        return cause if cause.startswith("allof-annotation-overrides") else \
+            "allof-annotation-is-not-its-first-member's"
+    return "allof-annotation-overrides-explicitly-typed-first-member"
 
 
 def _annot_obs(st):
@@ -341,8 +357,7 @@ def _annot_obs(st):
     try:
         from statham.schema.elements import AllOf
         for sub in drive.walk_elements(el):
-            if isinstance(sub, AllOf) and sub.annotation != sub.elements[0].annotation:
-                cause = "allof-annotation-is-not-its-first-member's"
+            cause = _allof_cause(sub, cause)
     except Exception:  # noqa
         pass
     return {"ty": ty, "text": text, "cause": cause}
